@@ -86,6 +86,8 @@ type Node struct {
 	EverActive map[*MBlock]bool
 	// hooks for other components (mempool handler)
 	onNotify func(n *blockchain.Notification)
+	// called with the new announced tip after each connect/disconnect
+	onTip func(tip *MBlock)
 }
 
 func NewNode(r *simkit.Run, w *World, cfg NodeCfg, store Store) *Node {
@@ -161,6 +163,9 @@ func (n *Node) notify(nt *blockchain.Notification) {
 			n.stack = n.stack[:len(n.stack)-1]
 			n.EverActive[n.top()] = true
 		}
+	}
+	if n.onTip != nil && (nt.Type == blockchain.NTBlockConnected || nt.Type == blockchain.NTBlockDisconnected) {
+		n.onTip(n.top())
 	}
 	if n.onNotify != nil {
 		n.onNotify(nt)
